@@ -80,7 +80,7 @@ def reader_faults(chk, wd, quick):
             chk.violation(f"reader-faults/{label}: deserialization under an allocation failure crashed or aborted "
                           f"rc={rcode}: {(crash[0] if crash else '')} {txt[-1500:]}", case)
             continue
-        kv = dict(x.split("=") for x in summ[0].split()[1:])
+        kv = vlib.kvs(summ[0])
         events += int(kv["events"])
         fired += int(kv["fired"])
         good.append((label, out))
@@ -156,7 +156,7 @@ def run(tier):
                 chk.violation(f"{name}/{g}: fault-injection run crashed or aborted rc={rc}: "
                               f"{(crash[0] if crash else '')} {txt[-1800:]}", beh)
                 continue
-            kv = dict(x.split("=") for x in summ[0].split()[1:])
+            kv = vlib.kvs(summ[0])
             events_total += int(kv["events"])
             fired_total += int(kv["fired"])
             good.append((g, out))
